@@ -9,14 +9,13 @@
      slicing / + / extend / prepend = concatenations        C20_slice_*, C20_add/extend/prepend_is_concat
      ... never alter the monitor passed to them             C20_argument_unchanged, C20_step_untouched
      LoggingMonitor output read back by logfile_reader      C20_parse_format_line, C20_parse_format_file
-     write_support/converge/raw_file read back              C20_support_roundtrip, C20_converge_roundtrip,
+     write_support/converge/raw_file read back              C20_raw_file_cost, C20_support_file_cost, C20_support_roundtrip, C20_converge_roundtrip,
                                                             C20_transpose_involutive, C20_ids_roundtrip, C20_file_ids_roundtrip
-   REFUTED on the unchanged tree (known findings, see known_findings.d/C20.txt):
-     the cost column of write_support_file / write_converge_file is divided by k twice:
-                                                            C20_support_file_cost_refuted / _partial
-     (files written from numpy scalars, mixed numpy/python costs, 0-d array costs with k, the stale
-      module cache of read_import are failures of Python-level printing/importing that the model does
-      not express; they are reported by the oracle only.) *)
+   History: the first version of this file carried C20_support_file_cost_refuted/_partial (write_support_file /
+   write_converge_file divided the cost column by k twice); /repo was repaired (fix: commits for the double
+   division, numpy-scalar repr in written files, mixed numpy/python costs, 0-d array costs with k, the stale
+   module cache of read_import, a.extend(a) / a.prepend(a)), the model follows the repaired code and the full
+   statement C20_support_file_cost is proved. *)
 From Coq Require Import List ZArith Reals Ascii String.
 From MV Require Import Common.Num Common.NumR Pure.Monitor Pure.Monitor_Proofs Pure.LogCodec Pure.LogCodec_Proofs.
 Import ListNotations.
@@ -81,6 +80,16 @@ Theorem C20_prepend_is_concat : forall (X I M : Type) (a b : monitor NumR X I M)
 Proof. exact prepend_is_concat. Qed.
 Print Assumptions C20_prepend_is_concat.
 
+(* a monitor extended / prepended with itself: contents doubled *)
+Theorem C20_self_combination : forall (X I M : Type) (m : monitor NumR X I M),
+  knz (mk m) ->
+  (get_x (extend m m) = get_x m ++ get_x m /\ get_y (extend m m) = get_y m ++ get_y m /\
+   get_id (extend m m) = get_id m ++ get_id m /\ minfo (extend m m) = minfo m ++ minfo m) /\
+  (get_x (prepend m m) = get_x m ++ get_x m /\ get_y (prepend m m) = get_y m ++ get_y m /\
+   get_id (prepend m m) = get_id m ++ get_id m /\ minfo (prepend m m) = minfo m ++ minfo m).
+Proof. exact self_combination. Qed.
+Print Assumptions C20_self_combination.
+
 Theorem C20_add_is_concat : forall (X I M : Type) (a b : monitor NumR X I M),
   knz (mk a) -> knz (mk b) ->
   let m := madd a b in
@@ -131,7 +140,8 @@ Theorem C20_slice_all : forall (A : Type) (l : list A), py_slice l (mkSlice None
 Proof. exact @py_slice_all. Qed.
 Print Assumptions C20_slice_all.
 
-(* no operation alters a monitor other than its target; +, extend, prepend, [slice] never alter their argument *)
+(* no operation alters a monitor other than its target; +, extend, prepend, [slice] never alter their argument
+   (a.extend(a) / a.prepend(a), where the argument IS the target, double a: C20_self_combination) *)
 Theorem C20_step_untouched : forall (N : Num) (X I M : Type) (st st' : store N X I M) (o : op N X I M) (j : nat),
   step st o = Some st' -> j < length st -> target N X I M o <> Some j -> nth_error st' j = nth_error st j.
 Proof. exact step_untouched. Qed.
@@ -139,8 +149,8 @@ Print Assumptions C20_step_untouched.
 
 Theorem C20_argument_unchanged : forall (N : Num) (X I M : Type) (st st' : store N X I M) (a b : nat) (s : pyslice),
   (step st (OAdd a b) = Some st' -> nth_error st' a = nth_error st a /\ nth_error st' b = nth_error st b) /\
-  (step st (OExtend a b) = Some st' -> nth_error st' b = nth_error st b) /\
-  (step st (OPrepend a b) = Some st' -> nth_error st' b = nth_error st b) /\
+  (a <> b -> step st (OExtend a b) = Some st' -> nth_error st' b = nth_error st b) /\
+  (a <> b -> step st (OPrepend a b) = Some st' -> nth_error st' b = nth_error st b) /\
   (step st (OSlice a s) = Some st' -> nth_error st' a = nth_error st a).
 Proof. exact argument_unchanged. Qed.
 Print Assumptions C20_argument_unchanged.
@@ -161,26 +171,11 @@ Theorem C20_raw_file_cost : forall (X I M : Type) (k : option R) (rs : list (rec
 Proof. exact raw_file_cost_ok. Qed.
 Print Assumptions C20_raw_file_cost.
 
-(* FULL statement (false):  forall k rs, knz k -> support_file_cost (...) = map rec_y rs.
-   write_support_file / write_converge_file divide by k a second time: *)
-Theorem C20_support_file_cost_refuted :
-  exists (k : option R) (rs : list (record NumR unit unit)),
-    knz k /\ support_file_cost (call_all (new_monitor NumR unit unit unit k) rs) <> map rec_y rs.
-Proof. exact support_file_cost_refuted. Qed.
-Print Assumptions C20_support_file_cost_refuted.
-
-(* what does hold: the column is y/k, hence correct exactly when k is None or 1 *)
-Theorem C20_support_file_cost_spec : forall (X I M : Type) (k : option R) (rs : list (record NumR X I)),
-  knz k ->
-  support_file_cost (call_all (new_monitor NumR X I M k) rs) = map (fun r => unscale (N:=NumR) k (rec_y r)) rs.
-Proof. exact support_file_cost_spec. Qed.
-Print Assumptions C20_support_file_cost_spec.
-
-Theorem C20_support_file_cost_partial : forall (X I M : Type) (k : option R) (rs : list (record NumR X I)),
-  k = None \/ k = Some 1%R ->
-  support_file_cost (call_all (new_monitor NumR X I M k) rs) = map rec_y rs.
-Proof. exact support_file_cost_partial. Qed.
-Print Assumptions C20_support_file_cost_partial.
+(* write_support_file / write_converge_file (through write_monitor(..., k=mon.k)) write the recorded costs too *)
+Theorem C20_support_file_cost : forall (X I M : Type) (k : option R) (rs : list (record NumR X I)),
+  knz k -> support_file_cost (call_all (new_monitor NumR X I M k) rs) = map rec_y rs.
+Proof. exact support_file_cost_ok. Qed.
+Print Assumptions C20_support_file_cost.
 
 (* ---------------------------------------------------------------- log codec *)
 
